@@ -85,6 +85,8 @@ class GroupLibrary(Mapping):
         """
         self.scheme = scheme
         self.path = path
+        # SMILES of the molecule last passed to GetDescriptors (if any).
+        self.name = None
         if isinstance(contents, Mapping):
             contents = list(contents.items())
         self.contents = dict((group, property_sets)
